@@ -8,7 +8,7 @@
      computegraph.py:_get_var_hist          _state_var_hist[var][delay] = f'{var}_hist{len(...[var])}'    [get_var_hist]
      computegraph.py:to_func (433-446)      for var, delays: idx = _state_var_indices[var];
                                             for delay, v_hist: add_var_hist(...)                           [emit]
-     base_backend.py:add_var_hist           fixed step:  lhs = hist(t*{dt:.10e}-d)[idx]
+     base_backend.py:add_var_hist           fixed step:  lhs = hist(t*<repr(float(dt))>-d)[idx]
                                             adaptive  :  lhs = hist(t-d)[idx]                              [t_emit, hist_val]
      base_backend.py:_solve_euler           rhs = func(i, y, hist,...); y += dt*rhs; hist.update((i+1)*dt, y)  [euler_impl]
      base_backend.py:DDEHistory             History.v (init / update / query)
@@ -20,14 +20,12 @@
    A delay is a float literal (dictionary key = its value) or a parameter (dictionary key = the parameter object,
    so two parameters with equal values are different keys).
 
-   Known defect modelled (finding C10-F1): inside a sum of >= 2 terms a delayed term with a NEGATIVE numeric
-   coefficient is printed by sympy as " - c*past(...)"; the textual replace in _expr_to_str (line 1309) misses
-   it and lines 1358-1366 then take (args[0], args[1]) of the *sum* as (variable, delay): TypeError at compile
-   time in most cases, silently another variable at another delay in some.  Impl's outcome on that class is
-   None ("does not deliver the delayed terms of the model"); the guard past_terms_printable over-approximates the class
-   (it has a second trigger, see no_shared_past below).
-   Known defect modelled (finding C10-F2): the step size is written into the code with `{dt:.10e}`; the model
-   receives the re-parsed value dt_emit; guard dt_fmt_exact says dt_emit = dt. *)
+   Repaired in /repo and modelled as repaired: D38 (textual replace in _expr_to_str missed " - c*past(...)" and rewrote
+   part of a longer sibling summand), D39 (step size written with `{dt:.10e}`; now repr(float(dt)), exact), D40 (edge delay
+   exactly 1.0 compiled without delay).  The behaviour before these repairs is kept as impl_eval_before_fix /
+   edge_factor_before_fix for the documented `_before_fix_refuted` lemmas only.
+   Open finding C10-F4: delays of the edges leaving one source variable are dropped when the largest of them does not
+   exceed step_size (guard edge_delay_above_step). *)
 From Coq Require Import List ZArith QArith Qcanon Bool Arith.
 From PV Require Import History.
 Import ListNotations.
@@ -48,10 +46,13 @@ Definition dkey_eqb (a b : dkey) : bool :=
   end.
 
 (* ---------------------------------------------------------------- time axis *)
-Inductive mode := Adaptive | Fixed (dt dt_emit : Qc).
-Definition t_emit (md : mode) (t : Qc) : Qc := match md with Adaptive => t | Fixed _ de => t * de end.
-Definition t_true (md : mode) (t : Qc) : Qc := match md with Adaptive => t | Fixed dt _ => t * dt end.
-Definition dt_fmt_exact (md : mode) : bool := match md with Adaptive => true | Fixed dt de => Qc_eqb de dt end.
+(* emode: the step size and the step size as it stands in the generated code (they differed before D39) *)
+Inductive emode := EAdaptive | EFixed (dt dt_emit : Qc).
+Definition t_emit (md : emode) (t : Qc) : Qc := match md with EAdaptive => t | EFixed _ de => t * de end.
+Definition t_true (md : emode) (t : Qc) : Qc := match md with EAdaptive => t | EFixed dt _ => t * dt end.
+Definition dt_fmt_exact (md : emode) : bool := match md with EAdaptive => true | EFixed dt de => Qc_eqb de dt end.
+Inductive mode := Adaptive | Fixed (dt : Qc).
+Definition emit_now (md : mode) : emode := match md with Adaptive => EAdaptive | Fixed dt => EFixed dt dt end.
 
 Definition sgn (q : Qc) : Qc := if Qcltb 0 q then 1 else if Qcltb q 0 then (-(1)) else 0.
 Definition prodq (l : list Qc) : Qc := fold_right Qcmult 1 l.
@@ -159,7 +160,7 @@ Section Eval.
   (* ---------- Spec: a delayed term is component pos(x) of hist(t - tau), t in time units *)
   Definition past_val (tt : Qc) (x : nat) (d : dkey) : Qc := nth (pos x) (hist (tt - dval d)) 0.
 
-  Definition fval (md : mode) (t : Qc) (y : list Qc) (f : factor) : Qc :=
+  Definition fval (md : emode) (t : Qc) (y : list Qc) (f : factor) : Qc :=
     match f with
     | FVar x => nth (pos x) y 0
     | FPar p => par p
@@ -169,14 +170,15 @@ Section Eval.
     end.
   Definition term_val md t y (cf : term) : Qc := fst cf * prodq (map (fval md t y) (snd cf)).
   Definition rhs_val md t y (r : rhs) : Qc := sumq (map (term_val md t y) r).
-  Definition spec_eval (m : model) md t y : list Qc := map (rhs_val md t y) m.
+  Definition spec_eval_e (m : model) (md : emode) t y : list Qc := map (rhs_val md t y) m.
+  Definition spec_eval (m : model) (md : mode) t y : list Qc := spec_eval_e m (emit_now md) t y.
 
   (* ---------- Impl: evaluation of the generated function *)
   Definition emit (tb : table) : list (nat * nat * dkey * nat) :=
     flat_map (fun xl => map (fun kd => (fst xl, fst kd, snd kd, pos (fst xl))) (enum_from 0 (snd xl))) tb.
 
   (* value bound to x_hist<k> by its line; an unbound name cannot occur in compiled code (0 is a placeholder) *)
-  Definition hist_val (tb : table) (md : mode) (t : Qc) (x k : nat) : Qc :=
+  Definition hist_val (tb : table) (md : emode) (t : Qc) (x k : nat) : Qc :=
     match slot tb x k with
     | Some d => nth (pos x) (hist (t_emit md t - dval d)) 0
     | None => 0
@@ -193,8 +195,13 @@ Section Eval.
   Definition cterm_val tb md t y (cf : cterm) : Qc := fst cf * prodq (map (cfval tb md t y) (snd cf)).
   Definition crhs_val tb md t y (r : crhs) : Qc := sumq (map (cterm_val tb md t y) r).
 
-  (* None: the compilation does not deliver these delayed terms (finding C10-F1) *)
-  Definition impl_eval (m : model) md t y : option (list Qc) :=
+  (* Impl: the generated function as the code is now *)
+  Definition impl_eval (m : model) (md : mode) t y : list Qc :=
+    let '(tb, cm) := compile m in map (crhs_val tb (emit_now md) t y) cm.
+
+  (* before D38/D39: None = the compilation did not deliver these delayed terms (TypeError, or silently another
+     variable at another delay); the emitted step size could differ from the step size *)
+  Definition impl_eval_before_fix (m : model) (md : emode) t y : option (list Qc) :=
     if past_terms_printable m then
       let '(tb, cm) := compile m in Some (map (crhs_val tb md t y) cm)
     else None.
@@ -203,9 +210,8 @@ End Eval.
 (* ---------------------------------------------------------------- delayed edges under an adaptive solver
    circuit.py:_preprocess_edge_operations / _collect_delays_from_edges / _add_edge_buffer (DDE branch, vectorize=False):
    the edges leaving one source variable get buffers only if their largest delay exceeds step_size
-   (add_delay = max_delay > self.step_size); then every edge gets  <var>_buffered = past(var, d)  — except that
-   line 663 writes the undelayed variable when `type(d) is float or d != 1` fails, which it does for the
-   0-d numpy array 1.0 that arrives there (finding C10-F3).  Delays not above the (initial) step size are dropped (finding C10-F4). *)
+   (add_delay = max_delay > self.step_size); then every edge gets  <var>_buffered = past(var, d)  (before D40 a delay
+   of exactly 1.0 was written as the undelayed variable).  Delays not above the (initial) step size are dropped (finding C10-F4). *)
 Definition edge := (nat * nat * nat * Qc)%type.      (* source state variable, target equation, weight parameter, delay *)
 Definition e_src (e : edge) : nat := fst (fst (fst e)).
 Definition e_delay (e : edge) : Qc := snd e.
@@ -214,6 +220,9 @@ Definition max_delay_from (es : list edge) (s : nat) : Qc :=
   fold_right (fun e acc => if (e_src e =? s)%nat then Qcmaxb (e_delay e) acc else acc) 0 es.
 
 Definition edge_factor_impl (step : Qc) (es : list edge) (e : edge) : factor :=
+  if Qcltb step (max_delay_from es (e_src e)) then FPast (e_src e) (DLit (e_delay e)) else FVar (e_src e).
+(* before D40 *)
+Definition edge_factor_before_fix (step : Qc) (es : list edge) (e : edge) : factor :=
   if Qcltb step (max_delay_from es (e_src e))
   then (if Qc_eqb (e_delay e) 1 then FVar (e_src e) else FPast (e_src e) (DLit (e_delay e)))
   else FVar (e_src e).
@@ -239,7 +248,7 @@ Section Run.
   Variable pos : nat -> nat.
   Variable par : nat -> Qc.
   Variable m : model.
-  Variable dt de : Qc.                    (* step size, and the step size as written into the code *)
+  Variable dt : Qc.
   Variable junk : nat -> list row.        (* arbitrary content of freshly allocated buffer rows *)
 
   (* Impl: _solve_euler with has_dde; returns the recorded rows (store_step = 1) *)
@@ -247,14 +256,11 @@ Section Run.
     match n with
     | O => Some []
     | S n' =>
-        match impl_eval (query h) pos par m (Fixed dt de) (qn i) y with
+        let f := impl_eval (query h) pos par m (Fixed dt) (qn i) y in
+        let y' := vadd y (vscale dt f) in
+        match update h (junk i) (qn (S i) * dt) y' with
         | None => None
-        | Some f =>
-            let y' := vadd y (vscale dt f) in
-            match update h (junk i) (qn (S i) * dt) y' with
-            | None => None
-            | Some h' => match euler_impl n' (S i) y' h' with None => None | Some r => Some (y :: r) end
-            end
+        | Some h' => match euler_impl n' (S i) y' h' with None => None | Some r => Some (y :: r) end
         end
     end.
   Definition run_impl (cap n : nat) (y0 : row) : option (list row) :=
@@ -266,7 +272,7 @@ Section Run.
     match n with
     | O => []
     | S n' =>
-        let f := spec_eval (interp recs) pos par m (Fixed dt dt) (qn i) y in
+        let f := spec_eval (interp recs) pos par m (Fixed dt) (qn i) y in
         let y' := vadd y (vscale dt f) in
         y :: euler_spec n' (S i) y' (recs ++ [(qn (S i) * dt, y')])
     end.
